@@ -430,4 +430,6 @@ def strmodel_int_of_str(it, v):
     r = fresh("int", "intval")
     it.ctx.assume(r.t == strmodel.f_int_of(t))
     it.ctx.assume(z3.Implies(ascii_digits, z3.And(r.t == z3.StrToInt(t), r.t >= 0)))
+    # a string of digit characters carries no sign
+    it.ctx.assume(z3.Implies(strmodel.f_isdigit(t), r.t >= 0))
     return r
